@@ -196,6 +196,44 @@ def gen_scenario(prng, tier, index, focus):
             for osz in spec["orbits"]:
                 cols.append(_distribute(prng, count * osz, n, prng.choice(("all", "few", "one"))))
         sc["motifs"] = motifs
+    share = None
+    if n >= 4 and prng.random() < 0.12:
+        # two types share the SAME build-callable object (as the suite itself does with clique_motif); they are told
+        # apart by vertex support: the first type's stubs live on the lower half of the vertices, the second's on the upper
+        half = n // 2
+        if algo in ("fast", "network") and len(topos) >= 2:
+            i, j = 0, 1
+            topos[j]["kind"], topos[j]["size"] = topos[i]["kind"], topos[i]["size"]
+            if topos[j]["name"] == topos[i]["name"]:
+                topos[j]["name"] = topos[j]["name"] + "-b"
+            cnt_i, cnt_j = prng.randrange(1, 4), prng.randrange(1, 4)
+            lo = _distribute(prng, cnt_i * topos[i]["size"], half, "all") + [0] * (n - half)
+            hi = [0] * half + _distribute(prng, cnt_j * topos[j]["size"], n - half, "all")
+            cols[i], cols[j] = lo, hi
+            share = {"types": [i, j], "split": half}
+        elif algo == "motifs" and len(motifs) >= 2:
+            i, j = 0, 1
+            keep_names = motifs[j]["names"]
+            motifs[j] = dict(motifs[i])
+            ne = len(motifs[j]["edges"])
+            motifs[j]["names"] = (keep_names if isinstance(keep_names, str) == isinstance(motifs[i]["names"], str) and (isinstance(keep_names, str) or len(keep_names) == ne)
+                                  else ("n-b" if isinstance(motifs[i]["names"], str) else [f"b{t}" for t in range(ne)]))
+            if motifs[j]["names"] == motifs[i]["names"]:
+                motifs[j]["names"] = "n-b" if isinstance(motifs[i]["names"], str) else [f"b{t}" for t in range(ne)]
+            # rebuild ALL columns: type i on the lower half, type j on the upper half, the others anywhere
+            cols = []
+            for t, m in enumerate(motifs):
+                cnt = prng.randrange(1, 4)
+                for osz in m["orbits"]:
+                    if t == i:
+                        cols.append(_distribute(prng, cnt * osz, half, "all") + [0] * (n - half))
+                    elif t == j:
+                        cols.append([0] * half + _distribute(prng, cnt * osz, n - half, "all"))
+                    else:
+                        cols.append(_distribute(prng, cnt * osz, n, "all"))
+            share = {"types": [i, j], "split": half}
+    if share:
+        sc["shared_builder"] = share
     sc["jds"] = [[c[v] for c in cols] for v in range(n)]
     nsh = len(cols)
     sc["policy"] = {"shuffle": [prng.choice(SHUFFLES) if prng.random() < 0.6 else "uniform" for _ in range(nsh)]}
@@ -252,6 +290,27 @@ class Recorder:
         cb.__name__ = f"build_{j}"
         return cb
 
+    def build_shared(self, types, split, fn):
+        """ONE callable object for two types; the type of an invocation is read off its arguments' vertex support."""
+        lo, hi = types
+
+        def cb(vertices):
+            seq = self.seq
+            self.seq += 1
+            args = list(vertices)
+            j = lo if all(isinstance(a, Integral) and a < split for a in args) else hi
+            entry = {"seq": seq, "topo": j, "args": args, "ret": None}
+            self.log.append(entry)
+            if self.fail_at is not None and seq == self.fail_at:
+                self.fail_at = None
+                self.fired += 1
+                raise SimFault(f"injected failure of build callback invocation {seq}")
+            ret = fn(vertices)
+            entry["ret"] = ret
+            return ret
+        cb.__name__ = f"build_shared_{lo}_{hi}"
+        return cb
+
     def names(self, j, value, style):
         def cb():
             self.names_calls[j] += 1
@@ -286,6 +345,12 @@ def build_params(sc, rec):
             else:
                 f = _shape_fn(shape_edges(m["kind"], m["size"]), "list")
             fns.append(rec.build(k, f))
+        sh = sc.get("shared_builder")
+        if sh:
+            i, j = sh["types"]
+            m = sc["topos"][i]
+            f = {"lib_clique": clique_motif, "lib_cycle": cycle_motif, "lib_diamond": diamond_motif}.get(m["kind"]) or _shape_fn(shape_edges(m["kind"], m["size"]), "list")
+            fns[i] = fns[j] = rec.build_shared([i, j], sh["split"], f)
         p[GCMAlgorithmNames.MOTIF_SIZES] = sizes
         p[GCMAlgorithmNames.BUILD_FUNCTIONS] = fns
         p[GCMAlgorithmNames.EDGE_NAMES] = names
@@ -301,6 +366,11 @@ def build_params(sc, rec):
             indices.append(idx)
             fns.append(rec.build(j, _shape_fn(m["edges"], m["ret"])))
             names.append(rec.names(j, m["names"], m.get("names_ret", "tuple")))
+        sh = sc.get("shared_builder")
+        if sh:
+            i, j = sh["types"]
+            m = sc["motifs"][i]
+            fns[i] = fns[j] = rec.build_shared([i, j], sh["split"], _shape_fn(m["edges"], m["ret"]))
         p[GCMAlgorithmNames.MOTIF_SIZES] = sizes
         p[GCMAlgorithmNames.BUILD_FUNCTIONS] = fns
         p[GCMAlgorithmNames.EDGE_NAMES] = names
